@@ -13,11 +13,11 @@ def register(op):
         seq, struct = a
         dep.clear_memory()
         c = dep.DSD_Complex(list(seq), list(struct), name="L")
+        from valfmt import Err
         def attempt(f):
             try:
                 return f()
             except Exception as e:
-                from valfmt import Err
                 return Err(type(e).__name__)
         def li():
             l, ext = c.loop_index
@@ -42,6 +42,23 @@ def register(op):
         # exterior/enclosed lists are cached attributes of the legacy object (returned as such by design): compare the rest
         if again[:9] != snap[:9]:
             raise RuntimeError("a view handed out by the legacy complex aliases its state")
+        # in-place rotation of the legacy object with every table cached: afterwards every view describes the rotated
+        # (sequence, structure), i.e. equals that of a legacy object built from it without memory
+        if len(c.lol_sequence) >= 1 and not any(isinstance(x, Err) for x in (res[6], res[7])):
+            c2 = dep.DSD_Complex(list(seq), list(struct), name="L2", memorycheck=False)
+            for loc in [(0, 0)]:
+                attempt(lambda: c2.get_domain(loc)); attempt(lambda: c2.get_paired_loc(loc)); attempt(lambda: c2.get_loop_index(loc))
+            attempt(lambda: c2.is_domainlevel_complement)
+            for _ in range(2):
+                c2.rotate_once()
+                c3 = dep.DSD_Complex(list(c2.sequence), list(c2.structure), name="L3", memorycheck=False)
+                def views(x):
+                    return [attempt(lambda: x.pair_table), attempt(lambda: x.loop_index[0]), attempt(lambda: sorted(x.loop_index[1])),
+                            attempt(lambda: x.kernel_string), attempt(lambda: list(x.exterior_domains)), attempt(lambda: list(x.enclosed_domains)),
+                            attempt(lambda: [str(d) for d in x.lol_sequence[0]]), attempt(lambda: x.get_paired_loc((0, 0))),
+                            attempt(lambda: str(x.get_domain((0, 0)))), attempt(lambda: x.get_loop_index((0, 0)))]
+                if repr(views(c2)) != repr(views(c3)):
+                    raise RuntimeError("after rotate_once() the legacy object's views differ from those of a fresh object of the same representation")
         dep.clear_memory()
         return res
 
